@@ -46,14 +46,14 @@ structure SphereLaws : Prop where
     unshifted: `x` is the 1-based coordinate along FITS axis 2 (the numpy row index + 1) and `y` the
     1-based coordinate along FITS axis 1 (the numpy column index + 1). -/
 theorem pix2sky_fits (W : Wcs ℝ) (x y : ℝ) : pix2sky W x y = W.p2w y x := by
-  simp [pix2sky, allPix2World]
+  simp [pix2sky, allPix2World, pix2skyP1_eq, pix2skyP2_eq, pix2skyOrigin_eq]
 
 /-- the same point through astropy's 0-based entry: `all_pix2world([[y-1, x-1]], 0)` -/
 theorem pix2sky_origin0 (W : Wcs ℝ) (x y : ℝ) : pix2sky W x y = allPix2World W (y - 1) (x - 1) 0 := by
-  simp [pix2sky, allPix2World]
+  simp [pix2sky, allPix2World, pix2skyP1_eq, pix2skyP2_eq, pix2skyOrigin_eq]
 
 theorem sky2pix_fits (W : Wcs ℝ) (ra dec : ℝ) : sky2pix W ra dec = ((W.w2p ra dec).2, (W.w2p ra dec).1) := by
-  simp [sky2pix, allWorld2Pix]
+  simp [sky2pix, allWorld2Pix, sky2pixX_eq, sky2pixY_eq, sky2pixOrigin_eq]
 
 /-- **pix_roundtrip**: pixel → sky → pixel returns the same pixel, because the swap and the origin
     are applied consistently in both directions -/
@@ -158,13 +158,13 @@ theorem vec_roundtrip (ra dec r pa : ℝ)
     simp only [v, sky2pixVec, s2pVecX_eq, s2pVecY_eq]; exact vec_polar_y _ _ _ _
   have habs := abs_lt.mp hd
   have hlen : s.r = r := by
-    simp only [s, pix2skyVec, p2sVecLen_eq]
+    simp only [s, pix2skyVec, p2sVecLen_eq, p2sVecOffX_eq, p2sVecOffY_eq]
     rw [hox, hoy, hx, hy, hk, hk']
     simp only []
     rw [S.gcd_periodic]
     exact S.gcd_translate ra dec r pa (by linarith [habs.1]) (by linarith [habs.2]) hr0.le hr1.le
   have hpa : ∃ m : ℤ, s.pa = pa + 360 * m := by
-    simp only [s, pix2skyVec, p2sVecPa_eq]
+    simp only [s, pix2skyVec, p2sVecPa_eq, p2sVecOffX_eq, p2sVecOffY_eq]
     rw [hox, hoy, hx, hy, hk, hk']
     simp only []
     rw [S.bear_periodic]
@@ -175,7 +175,7 @@ theorem vec_roundtrip (ra dec r pa : ℝ)
   · intro h1 h2
     obtain ⟨m, hm⟩ := hpa
     have hrange : -180 < s.pa ∧ s.pa ≤ 180 := by
-      simp only [s, pix2skyVec, p2sVecPa_eq]; exact S.bear_range _ _ _ _
+      simp only [s, pix2skyVec, p2sVecPa_eq, p2sVecOffX_eq, p2sVecOffY_eq]; exact S.bear_range _ _ _ _
     exact pa_unique _ _ m hrange ⟨h1, h2⟩ hm
 
 /-- **ellipse_major_pa_roundtrip**: centre (mod 360 in RA), semi-major axis and position angle of an
@@ -198,13 +198,13 @@ theorem ellipse_major_pa_roundtrip (ra dec a b pa : ℝ)
     simp only [e, sky2pixEllipse, s2pEllX_eq, s2pEllY_eq]; exact ell_polar_y _ _ _ _
   have habs := abs_lt.mp hd
   have hlen : s.a = a := by
-    simp only [s, pix2skyEllipse, p2sEllMajor_eq]
+    simp only [s, pix2skyEllipse, p2sEllMajor_eq, p2sEllOff1X_eq, p2sEllOff1Y_eq]
     rw [hox, hoy, hx, hy, hk, hk']
     simp only []
     rw [S.gcd_periodic]
     exact S.gcd_translate ra dec a pa (by linarith [habs.1]) (by linarith [habs.2]) ha0.le ha1.le
   have hpa : ∃ m : ℤ, s.pa = pa + 360 * m := by
-    simp only [s, pix2skyEllipse, p2sEllPa_eq]
+    simp only [s, pix2skyEllipse, p2sEllPa_eq, p2sEllOff1X_eq, p2sEllOff1Y_eq]
     rw [hox, hoy, hx, hy, hk, hk']
     simp only []
     rw [S.bear_periodic]
@@ -215,7 +215,7 @@ theorem ellipse_major_pa_roundtrip (ra dec a b pa : ℝ)
   · intro h1 h2
     obtain ⟨m, hm⟩ := hpa
     have hrange : -180 < s.pa ∧ s.pa ≤ 180 := by
-      simp only [s, pix2skyEllipse, p2sEllPa_eq]; exact S.bear_range _ _ _ _
+      simp only [s, pix2skyEllipse, p2sEllPa_eq, p2sEllOff1X_eq, p2sEllOff1Y_eq]; exact S.bear_range _ _ _ _
     exact pa_unique _ _ m hrange ⟨h1, h2⟩ hm
 
 end roundtrips
